@@ -4,6 +4,8 @@ use std::path::Path;
 
 pub mod c01;
 pub mod c09;
+pub mod c11;
+pub mod c18;
 
 macro_rules! registry {
     ($( $id:literal => $ctor:expr ),* $(,)?) => {
@@ -32,4 +34,6 @@ macro_rules! registry {
 registry! {
     "C01" => c01::C01,
     "C09" => c09::C09,
+    "C11" => c11::C11,
+    "C18" => c18::C18,
 }
